@@ -137,6 +137,15 @@ def rollingPlan (c : Counts) (nbNodes maxSched maxUnavailable maxCreation : Int)
   (if !frozen then c.toCreate.take nCre.toNat else [],
    if !paused && !frozen then allDelete.take nDel.toNat else [])
 
+/-- the three conditions `ManageDeployment` updates in place on `params.NewStatus` before anything
+can fail: what the status holds when the function returns early with an error. -/
+def rollingConds (p : StratParams) (now : Time) : List Cond :=
+  let paused := isRollingUpdatePaused p.edsAnnotations
+  let frozen := isRolloutFrozen p.edsAnnotations
+  let conds := updateCond p.newStatus.conds now "RollingUpdatePaused" (boolCond paused) "" "" false false
+  let conds := updateCond conds now "RolloutFrozen" (boolCond frozen) "" "" false false
+  updateCond conds now "Active" (boolCond (!paused && !frozen)) "" "" false false
+
 /-- `ManageDeployment` up to (not including) the canary-label clean-up, which talks to the API and
 is modelled in `Reconcile.lean`.  `cleanupFailed` = some `client.Delete` of the clean-up failed.
 `.err` = the early `return result, err` (NewStatus stays nil). -/
